@@ -21,7 +21,8 @@ Definition vec := list T.
 Inductive policy :=
 | PParent (trim : bool)   (* WriteAttr(data, value of the class (element) / of the parent class (default), trim) *)
 | PZeroDef                (* userdata: WriteVector(vec, classvec) for elements, WriteVector(vec) (any nonzero) in defaults *)
-| PConst (c : vec).       (* element mode compares with a constant (actdim), default mode with the parent class *)
+| PConst (c : vec)        (* element mode compares with a constant (actdim), default mode with the parent class *)
+| PExact.                 (* WriteVector(vec, class/parent vec) in both modes: written in full when any component differs (==) *)
 
 Definition all_defined (x : vec) : bool := forallb defined x.
 
@@ -65,6 +66,7 @@ Definition write_one (indef : bool) (p : policy) (x d : vec) : option vec :=
   | PZeroDef => if indef then (if existsb (fun a => negb (eqb a zero)) x then write_raw x else None)
                 else (if differs x d then write_raw x else None)
   | PConst c => if indef then write_attr false x d else write_attr false x c
+  | PExact => if differs x d then write_raw x else None
   end.
 
 (* ReadAttr into a copy of the class value: the first |p| components are overwritten *)
@@ -134,5 +136,6 @@ End XmlDefaults.
 Arguments PParent {T} trim.
 Arguments PZeroDef {T}.
 Arguments PConst {T} c.
+Arguments PExact {T}.
 Arguments CNode {T} _ _ _.
 Arguments WNode {T} _ _ _.
